@@ -137,6 +137,11 @@ impl Command for SystemCommand
 {
     fn apply(self, world: &mut World)
     {
+        #[cfg(feature = "verif")]
+        crate::verif::emit(crate::verif::VerifEvent::Apply{
+            id: crate::verif::new_delivery(), kind: crate::verif::VerifApplyKind::Manual,
+            sys: *self, source: None, data: None,
+        });
         syscommand_runner(world, self, SystemCommandSetup::default(), SystemCommandCleanup::default());
     }
 }
@@ -169,6 +174,11 @@ impl Command for EventCommand
 {
     fn apply(self, world: &mut World)
     {
+        #[cfg(feature = "verif")]
+        crate::verif::emit(crate::verif::VerifEvent::Apply{
+            id: crate::verif::new_delivery(), kind: crate::verif::VerifApplyKind::SystemEvent,
+            sys: *self.system, source: None, data: Some(self.data_entity),
+        });
         world.resource_mut::<SystemEventAccessTracker>().prepare(self.system, self.data_entity);
         syscommand_runner(
             world,
@@ -240,6 +250,30 @@ impl Command for ReactionCommand
 {
     fn apply(self, world: &mut World)
     {
+        #[cfg(feature = "verif")]
+        {
+            use crate::verif::{VerifApplyKind as K, VerifEvent};
+            let (kind, sys, source, data) = match &self
+            {
+                Self::Resource{ reactor } => (K::Resource, **reactor, None, None),
+                Self::EntityReaction{ reaction_source, reaction_type, reactor } =>
+                {
+                    let kind = match *reaction_type
+                    {
+                        EntityReactionType::Insertion(id) => K::Insertion(id),
+                        EntityReactionType::Mutation(id)  => K::Mutation(id),
+                        EntityReactionType::Removal(id)   => K::Removal(id),
+                        EntityReactionType::Event(_)      => K::EntityEvent,
+                    };
+                    (kind, **reactor, Some(*reaction_source), None)
+                }
+                Self::Despawn{ reaction_source, reactor, .. } => (K::Despawn, **reactor, Some(*reaction_source), None),
+                Self::EntityEvent{ target, data_entity, reactor } =>
+                    (K::EntityEvent, **reactor, Some(*target), Some(*data_entity)),
+                Self::BroadcastEvent{ data_entity, reactor } => (K::Broadcast, **reactor, None, Some(*data_entity)),
+            };
+            crate::verif::emit(VerifEvent::Apply{ id: crate::verif::new_delivery(), kind, sys, source, data });
+        }
         match self
         {
             Self::Resource{ reactor } =>
